@@ -80,7 +80,7 @@ def forced(kinds):
     return [(k, a) for k in kinds for a in ZEROS]
 
 
-def check(ctx, stream, native, conv, vclass, matcher, bounds, nontrivial, extra=None):
+def check(ctx, stream, native, conv, vclass, matcher, bounds, nontrivial, extra=None, region=None):
     """convert, validate, compare membership on probes"""
     ctx.count(stream, key=native, nontrivial=nontrivial)
     try:
@@ -93,8 +93,11 @@ def check(ctx, stream, native, conv, vclass, matcher, bounds, nontrivial, extra=
         VersionConstraint.validate(list(r.constraints))
     except Exception as e:  # noqa: BLE001
         ctx.disagree(stream, native, "vers %s is not well-formed: %s" % (r, e), "well-formed", True,
-                     {"native": native, "vers": str(r), "clause": "result is not accepted by validation"}, spec="well-formed")
-        return
+                     {"native": native, "vers": str(r), "clause": "result is not accepted by validation"}, spec="well-formed", region=region)
+        if region != "maven-shared-bound":
+            return
+        # the recorded finding K12 is about well-formedness only: membership is still compared, and reported
+        region = None
     for p in probes_around(bounds):
         t = rel(*p)
         try:
@@ -114,7 +117,7 @@ def check(ctx, stream, native, conv, vclass, matcher, bounds, nontrivial, extra=
                  "clause": "membership of %s differs" % t}
             if extra:
                 d.update(extra)
-            ctx.disagree(stream, "%s @%s" % (native, t), str(got), str(want), True, d, spec=str(want))
+            ctx.disagree(stream, "%s @%s" % (native, t), str(got), str(want), True, d, spec=str(want), region=region)
             return
         # the same release written another way (2.0.0 / 2.0 / 2 / 2.0.0.0): where the scheme says it is the same
         # version, the answer is the same
@@ -137,7 +140,7 @@ def check(ctx, stream, native, conv, vclass, matcher, bounds, nontrivial, extra=
             if got2 != want:
                 d = {"native": native, "vers": str(r), "probe": t2, "same_version_as": t, "native_matcher_says": want,
                      "vers_says": got2, "clause": "membership of %s (the same version as %s) differs" % (t2, t)}
-                ctx.disagree(stream, "%s @%s" % (native, t2), str(got2), str(want), True, d, spec=str(want))
+                ctx.disagree(stream, "%s @%s" % (native, t2), str(got2), str(want), True, d, spec=str(want), region=region)
                 return
 
 
@@ -178,9 +181,14 @@ def correspondence(ctx):
         else:
             c = (b[0] + 1, 0, 0)
             e, bd = "%s || >=%s" % ("~" + rel(*a), rel(*c)), [a, c]
+        if kind in ("caret", "tilde") and i % 3 == 2:
+            # the shorthand over a pre-release of that version (the release versions it accepts are those of the
+            # shorthand over the release itself)
+            e = e + rng.choice(["-alpha.1", "-rc.2", "-0", "-beta"])
         spec = semantic_version.NpmSpec(e)
         check(ctx, "npm", e, VR.NpmVersionRange.from_native, V.SemverVersion,
-              lambda t: spec.match(semantic_version.Version(t)), bd, kind not in ("exact", "ge", "lt"))
+              lambda t: spec.match(semantic_version.Version(t)), bd, kind not in ("exact", "ge", "lt"),
+              region="npm-tilde-prerelease" if (kind == "tilde" and "-" in e) else None)
     # ---------------- gem
     rng = ctx.rng("c06", "gem")
     fz = forced(["tilde3", "tilde2", "excl"])
@@ -245,7 +253,7 @@ def correspondence(ctx):
             c = (b[0] + 1, rng.randint(0, 5), 0)
             d = (c[0] + 1, 0, 0)
             lo, hi = rng.choice("[("), rng.choice("])")
-            kind = rng.choice(["interval", "exact", "lower", "upper", "two"])
+            kind = rng.choice(["interval", "exact", "lower", "upper", "two", "shared", "shared", "hole"])
             inlo = (lambda p, x: p >= x) if lo == "[" else (lambda p, x: p > x)
             inhi = (lambda p, x: p <= x) if hi == "]" else (lambda p, x: p < x)
             if kind == "interval":
@@ -256,16 +264,28 @@ def correspondence(ctx):
                 e, bd, f = "%s%s,)" % (lo, rel(*a)), [a], (lambda p: inlo(p, a))
             elif kind == "upper":
                 e, bd, f = "(,%s%s" % (rel(*a), hi), [a], (lambda p: inhi(p, a))
+            elif kind == "shared":
+                # two intervals that share the bound b, each side inclusive or not: (a,b),(b,c] excludes exactly b
+                l2 = rng.choice("[(")
+                in2 = (lambda p, x: p >= x) if l2 == "[" else (lambda p, x: p > x)
+                e, bd, f = "[%s,%s%s,%s%s,%s]" % (rel(*a), rel(*b), hi, l2, rel(*b), rel(*c)), [a, b, c], \
+                    (lambda p, in2=in2: (p >= a and inhi(p, b)) or (in2(p, b) and p <= c))
+            elif kind == "hole":
+                # the idiom for "every version but b"
+                e, bd, f = "(,%s),(%s,)" % (rel(*b), rel(*b)), [b], (lambda p: p != b)
             else:
                 e, bd, f = "%s%s,%s%s,[%s,%s)" % (lo, rel(*a), rel(*b), hi, rel(*c), rel(*d)), [a, b, c, d], \
                     (lambda p: (inlo(p, a) and inhi(p, b)) or c <= p < d)
             # hand-written reading of the interval notation first (maven.VersionRange is part of the code under test)
-            check(ctx, sname, e, rcls.from_native, vcls, lambda t, f=f: f(tuple(int(i) for i in t.split("."))), bd, kind in ("interval", "two"))
+            reg = "maven-shared-bound" if kind in ("shared", "hole") else None
+            check(ctx, sname, e, rcls.from_native, vcls, lambda t, f=f: f(tuple(int(i) for i in t.split("."))), bd,
+                  kind in ("interval", "two", "shared", "hole"), region=reg)
             try:
                 mr = M.VersionRange(e)
             except Exception:  # noqa: BLE001 — the vendored matcher itself fails: no second opinion
                 continue
-            check(ctx, sname + "-native", e, rcls.from_native, vcls, lambda t: M.Version(t) in mr, bd, kind in ("interval", "two"))
+            check(ctx, sname + "-native", e, rcls.from_native, vcls, lambda t: M.Version(t) in mr, bd,
+                  kind in ("interval", "two", "shared", "hole"), region=reg)
     # ---------------- conan
     rng = ctx.rng("c06", "conan")
     fz = forced(["tilde", "caret"])
